@@ -728,7 +728,7 @@ func main() {
 		"no .gitattributes below the invocation directory and no .git/info/attributes exist (they would legitimately take precedence)",
 		"paths denoted by two arguments of the same case are not judged",
 	}
-	total := run.N(160, 5000)
+	total := run.N(176, 5000)
 	run.SetMinEvaluations(total / 2)
 
 	cases := make([]Case, total)
